@@ -86,14 +86,15 @@ def build(tier):
     bin_i64 = Fn('histogram_bin_i64', TU, 'bin', flt='nano::histogram_t', select=targs('long'), **common)
     targets = [Target('bin_f64', [bin_f64], 'specs/C20/bin.h'), Target('bin_i64', [bin_i64], 'specs/C20/bin.h')]
     ptypes = lambda *want: (lambda d: astload.param_types(d) == list(want))
-    stdmap = [(r'^advance\|', '({0} += {1})'), (r'^nth_element\|', 'nv_nth_element_f64({0}, {1}, {2})'),
-              (r'^percentile_sorted\|', 'nv_percentile({0}, {1}, {2})'), (r'^percentile\|', 'nv_percentile({0}, {1}, {2})')]
+    import ext
+    stdmap = [(r'^nth_element\|', 'nv_nth_element_f64({0}, {1}, {2})'), (r'^max_element\|', 'nv_max_element_f64({0}, {1})'),
+              (r'^percentile_sorted\|', 'nv_percentile_sorted({0}, {1}, {2})'), (r'^percentile\|', 'nv_percentile_unsorted({0}, {1}, {2})')] + ext.ITER_CALLS
     fps = Fn('from_position_sorted', TU, 'percentile_sorted', flt='nano::', select=ptypes('const double *', 'const double *', 'const double'),
              lambda_index=0, extra_params=['const double* begin'], calls=stdmap)
     fpu = Fn('from_position_unsorted', TU, 'percentile', flt='nano::', select=ptypes('double *', 'double *', 'const double'),
              lambda_index=0, extra_params=['double* begin', 'double* end'], calls=stdmap)
-    med_s = Fn('median_sorted', TU, 'median_sorted', flt='nano::', select=ptypes('const double *', 'const double *'), calls=stdmap)
-    med = Fn('median', TU, 'median', flt='nano::', select=ptypes('double *', 'double *'), calls=stdmap)
+    med_s = Fn('median_sorted', TU, 'median_sorted', flt='nano::', select=ptypes('const double *', 'const double *'), calls=stdmap, hooks=[ext.iter_default_hook])
+    med = Fn('median', TU, 'median', flt='nano::', select=ptypes('double *', 'double *'), calls=stdmap, hooks=[ext.iter_default_hook])
     hcalls = [(r'^operator\(\)\|.*tensor_vector_storage_t, (double|long), 1', '{0}.p[{1}]'),
               (r'^upper_bound\|(double|long|signed char|short|int) \*\((double|long|signed char|short|int) \*, (double|long|signed char|short|int) \*, const double &, \(lambda', 'nv_upper_bound_cmp({0}, {1}, {2})'),
               (r'^lower_bound\|(double|long|signed char|short|int) \*\((double|long|signed char|short|int) \*, (double|long|signed char|short|int) \*, const (double|long|signed char|short|int) &\)', 'nv_lower_bound_elem({0}, {1}, {2})'),
